@@ -2,15 +2,22 @@ import DFV.Lemmas.C02DictCells
 import DFV.Lemmas.C02Nearest
 import DFV.Lemmas.C02Line
 import DFV.Lemmas.C02Ex
+import DFV.Lemmas.C02Shape
+import DFV.Lemmas.C02Near2
+import DFV.Lemmas.C02Frame
+import DFV.Lemmas.C02Labels
+import DFV.Lemmas.C02Hist
 /-!
 # C02 — a field holds exactly the value its specification assigns to every cell
 
 Property theorems only (helper lemmas live in `DFV/Lemmas/C02*.lean`).  All statements are
 about the executable model `DFV/Model/C02.lean` of `Field._as_array`, the `array` setter,
-`Field.__call__`, `__getattr__`, `__iter__`, `Mesh.region2slices`, `Mesh.line` and
-`Field.line`, for every number of dimensions, every mesh, every component count, every value
-type `V` (the model only moves values, so int, float, complex and bool fields are all
-instances) and every specification.  An array entry is addressed by `i ++ [c]`: cell `i`,
+`update_field_values`, the constructor (`nvdim` check, value conversion, `vdims` setter),
+`Field.__call__`, `__getattr__`, `__iter__`, `Mesh.region2slices`, `Mesh.line`, `Field.line` and
+the data frame built by `Line.__init__` (column names and column assignment), for every number of
+dimensions, every mesh, every component count, every value type `V` (the model only moves values,
+so int, float, complex and bool fields are all instances), every specification and every history
+of accepted and rejected assignments.  An array entry is addressed by `i ++ [c]`: cell `i`,
 component `c`; the array of a field on mesh `m` has shape `m.n ++ [nvdim]`, i.e. `(*n, nvdim)`.
 -/
 namespace DFV.C02
@@ -636,6 +643,793 @@ theorem comp_accepts (isZero : V → Bool) (f : VF V) (label : String) (vs : Lis
   obtain ⟨b, hb, _, _⟩ := updateValues_eq isZero _ f.mesh 1 a ha has
   exact ⟨⟨f.mesh, 1, b, none⟩, by simp [VF.comp, hv, hk, VF.mk?, hb]⟩
 
+/-! ## every specification: shape, and what `update_field_values` / the constructor store -/
+
+/-- Whatever the kind of specification (constant, array, callable, dictionary, field): an accepted
+conversion yields an array of shape `(*n, nvdim)`. -/
+theorem asArray_shape (isZero : V → Bool) (s : Spec V) (m : Mesh) (nv : Nat) (a : NDA V)
+    (h : asArray isZero s m nv = .ok a) : a.shape = m.n ++ [nv] :=
+  asArray_shape_any isZero s m nv a h
+
+/-- `update_field_values` on an existing field, for EVERY specification (no shape hypothesis, cf.
+`updateValues_eq`): it is accepted exactly when the conversion is; then the field holds the
+conversion's result in every entry (the setter's second conversion changes nothing) and mesh,
+`nvdim` and labels are kept; when the conversion is rejected the field keeps its state. -/
+theorem update_stores_spec (isZero : V → Bool) (f : VF V) (s : Spec V) :
+    (∀ a, asArray isZero s f.mesh f.nvdim = .ok a →
+      ∃ g, f.update isZero s = .ok g ∧ f.after (f.update isZero s) = g ∧
+        g.mesh = f.mesh ∧ g.nvdim = f.nvdim ∧ g.vdims = f.vdims ∧
+        g.data.shape = f.mesh.n ++ [f.nvdim] ∧
+        ∀ j, inRange (f.mesh.n ++ [f.nvdim]) j = true → g.data.get j = a.get j) ∧
+    (∀ e, asArray isZero s f.mesh f.nvdim = .error e →
+      f.update isZero s = .error e ∧ f.after (f.update isZero s) = f) := by
+  constructor
+  · intro a ha
+    obtain ⟨b, hb, hs, hg⟩ := updateValues_of_ok isZero s f.mesh f.nvdim a ha
+    have e : f.update isZero s = .ok { f with data := b } := by simp [VF.update, hb]
+    exact ⟨_, e, by rw [e]; rfl, rfl, rfl, rfl, hs, hg⟩
+  · intro e he
+    have e' : f.update isZero s = .error e := by
+      simp [VF.update, updateValues_of_err isZero s f.mesh f.nvdim e he]
+    exact ⟨e', by rw [e']; rfl⟩
+
+/-- The `array` setter with an array of the field's own shape `(*n, nvdim)` stores it entry by
+entry (in particular `f.array = f.array` changes nothing). -/
+theorem setArray_array_stores (isZero : V → Bool) (f : VF V) (a : NDA V) (hs : a.shape = f.mesh.n ++ [f.nvdim]) :
+    ∃ g, f.setArray isZero (.arr a) = .ok g ∧ g.mesh = f.mesh ∧ g.nvdim = f.nvdim ∧ g.vdims = f.vdims ∧
+      g.data.shape = f.mesh.n ++ [f.nvdim] ∧
+      ∀ j, inRange (f.mesh.n ++ [f.nvdim]) j = true → g.data.get j = a.get j := by
+  obtain ⟨b, hb, hshape, hget⟩ := asArray_array isZero a f.mesh f.nvdim hs
+  simp only [asArray] at hb
+  exact ⟨{ f with data := b }, by simp [VF.setArray, hb], rfl, rfl, rfl, hshape, hget⟩
+
+/-! ## source fields: initialisation = sampling the source at the target's cell centres -/
+
+/-- A source field on ANY mesh whose region contains the target's (other origin, other resolution,
+coarser or finer): for every target cell `i` the stored row is exactly what sampling the source
+at the centre of cell `i` returns, `src(mesh.index2point(i))` — the xarray nearest-centre
+selection (ties to the larger index) and `point2index` of the source pick the same source cell. -/
+theorem asArray_field_samples_source (isZero : V → Bool) (src : VF V) (m : Mesh) (nv : Nat)
+    (hm : m.Inv) (hs : src.mesh.Inv) (hnd : src.mesh.ndim = m.ndim)
+    (hdims : m.region.dims = src.mesh.region.dims) (hnv : src.nvdim = nv)
+    (hin : ∀ a, a < m.ndim → src.mesh.region.lo a ≤ m.region.lo a ∧ m.region.hi a ≤ src.mesh.region.hi a) :
+    ∃ b, asArray isZero (.leaf (.field src)) m nv = .ok b ∧ b.shape = m.n ++ [nv] ∧
+      ∀ i, inRange m.n i = true → src.call (m.centre i) = .ok (row b nv i) := by
+  obtain ⟨b, hb, hshape, hget⟩ := asArray_field isZero src m nv hm hs hnd hdims hnv hin
+  refine ⟨b, hb, hshape, fun i hi => ?_⟩
+  have hp := nearestIdx_eq_point2index src.mesh m hm hs hnd hin i hi
+  rw [((call_eq src (m.centre i)).1 _ hp).1, hnv]
+  congr 1
+  unfold row
+  apply tab_congr
+  intro c _
+  exact ((hget i c hi).1).symm
+
+/-- A source field on the same mesh is copied cell by cell. -/
+theorem asArray_field_same_mesh (isZero : V → Bool) (src : VF V) (hs : src.mesh.Inv) :
+    ∃ b, asArray isZero (.leaf (.field src)) src.mesh src.nvdim = .ok b ∧
+      b.shape = src.mesh.n ++ [src.nvdim] ∧
+      ∀ i c, inRange src.mesh.n i = true → c < src.nvdim → b.get (i ++ [c]) = src.data.get (i ++ [c]) := by
+  obtain ⟨b, hb, hshape, hget⟩ := asArray_field_samples_source isZero src src.mesh src.nvdim hs hs rfl rfl rfl
+    (fun a _ => ⟨le_refl _, le_refl _⟩)
+  refine ⟨b, hb, hshape, fun i c hi hc => ?_⟩
+  have h1 := hget i hi
+  rw [call_centre src hs i hi] at h1
+  injection h1 with h1
+  have := congrArg (fun l => l.getD c default) h1
+  simp only [row] at this
+  rw [getD_tab _ _ _ _ hc, getD_tab _ _ _ _ hc] at this
+  exact this.symm
+
+/-- Round trip: `field.update_field_values(field)` (a field as its own source) is accepted and
+changes no entry. -/
+theorem update_with_self (isZero : V → Bool) (f : VF V) (hm : f.mesh.Inv) :
+    ∃ g, f.update isZero (.leaf (.field f)) = .ok g ∧ g.data.shape = f.mesh.n ++ [f.nvdim] ∧
+      ∀ i c, inRange f.mesh.n i = true → c < f.nvdim → g.data.get (i ++ [c]) = f.data.get (i ++ [c]) := by
+  obtain ⟨b, hb, _, hbg⟩ := asArray_field_same_mesh isZero f hm
+  obtain ⟨g, hg, _, _, _, _, hs, hgg⟩ := (update_stores_spec isZero f (.leaf (.field f))).1 b hb
+  refine ⟨g, hg, hs, fun i c hi hc => ?_⟩
+  rw [hgg _ (by rw [inRange_snoc, hi]; simp [hc]), hbg i c hi hc]
+
+/-! ## iteration order -/
+
+omit [Inhabited V] in
+/-- Iteration yields the cells with the FIRST index running fastest: there are `∏ n` items, item `k`
+is the stored row of the cell with mixed-radix digits `k = i₀ + n₀·(i₁ + n₁·(…))`, and cell `i` is
+item number `flatF n i`. -/
+theorem iter_first_index_fastest (f : VF V) (hm : f.mesh.Inv) :
+    f.iter.length = natProd f.mesh.n ∧
+    (∀ k, k < natProd f.mesh.n →
+      f.iter.getD k (.error .index) = .ok (row f.data f.nvdim (unflatF f.mesh.n k))) ∧
+    (∀ i, inRange f.mesh.n i = true →
+      f.iter.getD (flatF f.mesh.n i) (.error .index) = .ok (row f.data f.nvdim i)) := by
+  have e := iter_eq f hm
+  rw [indicesCode_eq_indicesF] at e
+  have hk : ∀ k, k < natProd f.mesh.n →
+      f.iter.getD k (.error .index) = .ok (row f.data f.nvdim (unflatF f.mesh.n k)) := by
+    intro k hk
+    rw [e]
+    simp [indicesF, List.getD_eq_getElem?_getD, hk]
+  refine ⟨by rw [e]; simp [indicesF], hk, fun i hi => ?_⟩
+  rw [hk _ (flatF_lt _ _ hi), unflatF_flatF _ _ hi]
+
+/-! ## component labels -/
+
+/-- Component access by label, for every component count and every duplicate-free label list (the
+only ones the `vdims` setter lets through, `new_labels`): the `k`-th label returns the `k`-th
+column, as a scalar field on the same mesh. -/
+theorem comp_kth (isZero : V → Bool) (f : VF V) (vs : List String) (k : Nat)
+    (hv : f.vdims = some vs) (hnd : hasDup vs = false) (hk : k < vs.length) :
+    ∃ g, f.comp isZero (vs.getD k "") = .ok g ∧ g.mesh = f.mesh ∧ g.nvdim = 1 ∧
+      g.data.shape = f.mesh.n ++ [1] ∧
+      ∀ i, inRange f.mesh.n i = true → g.data.get (i ++ [0]) = f.data.get (i ++ [k]) := by
+  have hidx := indexOf?_nodup vs k hk hnd
+  obtain ⟨g, hg⟩ := comp_accepts isZero f _ vs k hv hidx
+  obtain ⟨h1, h2, h3, vs', k', hv', _, _, h4⟩ := comp_eq isZero f _ g hg
+  refine ⟨g, hg, h1, h2, h3, ?_⟩
+  -- the column `comp_eq` speaks about is column `k`: replay the definition
+  unfold VF.comp at hg
+  rw [hv] at hg
+  simp only [hidx] at hg
+  obtain ⟨a, ha, has, hag⟩ := asArray_array isZero
+    ⟨f.mesh.n ++ [1], fun j => f.data.get (j.dropLast ++ [k])⟩ f.mesh 1 rfl
+  obtain ⟨b, hb, hbs, hbg⟩ := updateValues_eq isZero _ f.mesh 1 a ha has
+  unfold VF.mk? at hg
+  rw [hb] at hg
+  injection hg with hg; subst hg
+  intro i hi
+  have hj : inRange (f.mesh.n ++ [1]) (i ++ [0]) = true := by rw [inRange_snoc, hi]; simp
+  simp only
+  rw [hbg _ hj, hag _ hj]
+  simp
+
+/-- The constructor `Field(mesh, nvdim, value, vdims)`: `nvdim < 1` is rejected; otherwise it is
+accepted exactly when the value conversion and the label check are; the new field then lives on
+the given mesh with the given `nvdim`, holds the conversion's result in every entry of an array
+of shape `(*n, nvdim)`, and its labels are what the `vdims` setter returns. -/
+theorem new_stores_spec (isZero : V → Bool) (reserved : List String) (m : Mesh) (nv : Nat) (s : Spec V)
+    (vdims : Option (List String)) :
+    (nv < 1 → VF.new? isZero reserved m nv s vdims = .error .value) ∧
+    (∀ a vd, 1 ≤ nv → asArray isZero s m nv = .ok a → vdimsSet reserved nv vdims = .ok vd →
+      ∃ g, VF.new? isZero reserved m nv s vdims = .ok g ∧ g.mesh = m ∧ g.nvdim = nv ∧ g.vdims = vd ∧
+        g.data.shape = m.n ++ [nv] ∧ ∀ j, inRange (m.n ++ [nv]) j = true → g.data.get j = a.get j) ∧
+    (∀ e, 1 ≤ nv → asArray isZero s m nv = .error e → VF.new? isZero reserved m nv s vdims = .error e) ∧
+    (∀ a e, 1 ≤ nv → asArray isZero s m nv = .ok a → vdimsSet reserved nv vdims = .error e →
+      VF.new? isZero reserved m nv s vdims = .error e) := by
+  refine ⟨fun h => by simp [VF.new?, h], fun a vd h1 ha hvd => ?_, fun e h1 he => ?_, fun a e h1 ha he => ?_⟩
+  · obtain ⟨b, hb, hs, hg⟩ := updateValues_of_ok isZero s m nv a ha
+    have : ¬ nv < 1 := by omega
+    exact ⟨⟨m, nv, b, vd⟩, by simp [VF.new?, this, hb, hvd], rfl, rfl, rfl, hs, hg⟩
+  · have : ¬ nv < 1 := by omega
+    simp [VF.new?, this, updateValues_of_err isZero s m nv e he]
+  · obtain ⟨b, hb, _, _⟩ := updateValues_of_ok isZero s m nv a ha
+    have : ¬ nv < 1 := by omega
+    simp [VF.new?, this, hb, he]
+
+/-- Labels of a new field: none given → `x, y(, z)` for 2 or 3 components, `v0, v1, …` for more,
+none for a scalar field; an empty list removes the labels; a given list must have `nvdim`
+pairwise different entries, none of them the name of an attribute — everything else is rejected. -/
+theorem new_labels (reserved : List String) (nv : Nat) :
+    vdimsSet reserved nv none = .ok (defaultLabels nv) ∧
+    vdimsSet reserved nv (some []) = .ok none ∧
+    (∀ vs r, vdimsSet reserved nv (some vs) = .ok r → vs ≠ [] →
+      r = some vs ∧ vs.length = nv ∧ hasDup vs = false ∧ ∀ c ∈ vs, c ∉ reserved) ∧
+    (∀ vs, vs ≠ [] → vs.length = nv → hasDup vs = false → (∀ c ∈ vs, c ∉ reserved) →
+      vdimsSet reserved nv (some vs) = .ok (some vs)) ∧
+    (∀ vs, vs ≠ [] → (vs.length ≠ nv ∨ hasDup vs = true) → vdimsSet reserved nv (some vs) = .error .value) := by
+  refine ⟨rfl, rfl, fun vs r h hne => ?_, fun vs hne hl hd hr => ?_, fun vs hne h => ?_⟩
+  · rcases vdimsSet_ok reserved nv _ r h with ⟨h1, _⟩ | ⟨h1, _⟩ | ⟨vs', h1, h2, h3, _, h5, h6⟩
+    · cases h1
+    · injection h1 with h1; exact absurd h1 hne
+    · injection h1 with h1; subst h1; exact ⟨h2, h3, h5, h6⟩
+  · have h0 : ¬ vs.length = 0 := fun e => hne (List.eq_nil_of_length_eq_zero e)
+    have h3 : (vs.any fun c => reserved.contains c) = false := by
+      rw [List.any_eq_false]
+      intro c hc
+      simpa using hr c hc
+    subst hl
+    simp only [vdimsSet, h0, hd, h3, if_false, ne_eq, not_true_eq_false, Bool.false_eq_true]
+  · have h0 : ¬ vs.length = 0 := fun e => hne (List.eq_nil_of_length_eq_zero e)
+    rcases h with h | h
+    · simp [vdimsSet, h0, h]
+    · by_cases hl : vs.length = nv
+      · subst hl; simp [vdimsSet, h0, h]
+      · simp [vdimsSet, h0, hl]
+
+/-- A vector field created without labels: `.x`, `.y` (and `.z`) are columns 0, 1 (and 2). -/
+theorem new_default_labels_comp (isZero : V → Bool) (reserved : List String) (m : Mesh) (nv : Nat) (s : Spec V)
+    (g : VF V) (hnv : nv = 2 ∨ nv = 3) (h : VF.new? isZero reserved m nv s none = .ok g) (k : Nat) (hk : k < nv) :
+    ∃ c, g.comp isZero (["x", "y", "z"].getD k "") = .ok c ∧ c.nvdim = 1 ∧ c.mesh = m ∧
+      ∀ i, inRange m.n i = true → c.data.get (i ++ [0]) = g.data.get (i ++ [k]) := by
+  have hg : g.mesh = m ∧ g.vdims = defaultLabels nv := by
+    unfold VF.new? at h
+    split at h
+    · cases h
+    · split at h
+      · cases h
+      · simp only [vdimsSet] at h
+        injection h with h; subst h; exact ⟨rfl, rfl⟩
+  obtain ⟨hgm, hgv⟩ := hg
+  rcases hnv with rfl | rfl
+  · rw [(defaultLabels_spec 2).1 rfl] at hgv
+    obtain ⟨c, hc, h1, h2, _, h4⟩ := comp_kth isZero g ["x", "y"] k hgv (by decide) hk
+    refine ⟨c, ?_, h2, h1.trans hgm, fun i hi => h4 i (by rw [hgm]; exact hi)⟩
+    have : (["x", "y"] : List String).getD k "" = ["x", "y", "z"].getD k "" := by
+      have : k = 0 ∨ k = 1 := by omega
+      rcases this with rfl | rfl <;> rfl
+    rw [← this]; exact hc
+  · rw [(defaultLabels_spec 3).2.1 rfl] at hgv
+    obtain ⟨c, hc, h1, h2, _, h4⟩ := comp_kth isZero g ["x", "y", "z"] k hgv (by decide) hk
+    exact ⟨c, hc, h2, h1.trans hgm, fun i hi => h4 i (by rw [hgm]; exact hi)⟩
+
+/-! ## end to end: construct, then sample -/
+
+/-- A field constructed from a function of position, sampled at ANY point of the region, returns
+the function's value at the centre of a cell that contains the point. -/
+theorem construct_func_call (isZero : V → Bool) (reserved : List String) (m : Mesh) (hm : m.Inv) (nv : Nat)
+    (fn : List Rat → List V) (vdims : Option (List String)) (g : VF V)
+    (hlen : ∀ i, inRange m.n i = true → (fn (m.centre i)).length = nv)
+    (h : VF.new? isZero reserved m nv (.leaf (.func fn)) vdims = .ok g)
+    (p : List Rat) (hp : m.region.containsExact p) :
+    ∃ i, inRange m.n i = true ∧ g.call p = .ok (fn (m.centre i)) ∧
+      ∀ a, a < m.ndim →
+        m.region.lo a + (i.getD a 0 : Rat) * m.cellAt a ≤ p.getD a 0 ∧
+        (p.getD a 0 < m.region.lo a + ((i.getD a 0 : Rat) + 1) * m.cellAt a ∨
+          (i.getD a 0 = m.nAt a - 1 ∧ p.getD a 0 = m.region.hi a)) := by
+  obtain ⟨a, ha, _, hag⟩ := asArray_func isZero fn m nv hlen
+  have hnv : 1 ≤ nv := by
+    by_contra hc
+    have : nv < 1 := by omega
+    simp [VF.new?, this] at h
+  -- unfold the constructor
+  obtain ⟨b, hb, hbs, hbg⟩ := updateValues_of_ok isZero _ m nv a ha
+  have hgd : g.mesh = m ∧ g.nvdim = nv ∧ g.data = b := by
+    unfold VF.new? at h
+    have : ¬ nv < 1 := by omega
+    simp only [this, if_false, hb] at h
+    split at h
+    · cases h
+    · injection h with h; subst h; exact ⟨rfl, rfl, rfl⟩
+  obtain ⟨hgm, hgn, hgdat⟩ := hgd
+  obtain ⟨i, hcall, hir, hbox⟩ := call_cell_contains g (by rw [hgm]; exact hm) p (by rw [hgm]; exact hp)
+  rw [hgm] at hir hbox
+  refine ⟨i, hir, ?_, hbox⟩
+  rw [hcall, hgn, hgdat]
+  congr 1
+  apply List.ext_getElem
+  · simp [row, hlen i hir]
+  · intro c h1 h2
+    have hc : c < nv := by simpa [row] using h1
+    simp only [row, getElem_tab]
+    have hj : inRange (m.n ++ [nv]) (i ++ [c]) = true := by rw [inRange_snoc, hir]; simp [hc]
+    rw [hbg _ hj, hag i c hir]
+    simp [List.getD_eq_getElem?_getD, h2]
+
+/-! ## the data frame of a line: column names -/
+
+/-- POSITIVE statement for non-clashing names.  When `r`, the mesh dimension names and the value
+column names (`v<label>`; without labels `v`, or `v0, v1, …` for a vector field) are pairwise different, the data frame of `Field.line` has
+exactly the columns `r, *dims, *value columns` in this order; column `r` holds the (squared)
+distances, the column of dimension `a` the `a`-th coordinate of every point, the `c`-th value
+column the `c`-th component of every sampled value.  There are `nvdim` value columns, one for
+every component, whenever the labels have passed the `vdims` setter (`valueColumns_complete`). -/
+theorem lineData_columns (f : VF V) (p1 p2 : List Rat) (n : Nat) (fr : List (String × Col V))
+    (h : f.lineData p1 p2 n = .ok fr)
+    (hnd : ("r" :: (f.mesh.region.dims ++ (valueColumns f.vdims f.nvdim).take f.nvdim)).Nodup) :
+    ∃ o, f.line p1 p2 n = .ok o ∧
+      colNames fr = "r" :: (f.mesh.region.dims ++ (valueColumns f.vdims f.nvdim).take f.nvdim) ∧
+      colOf fr "r" = some (.dist2 o.r2) ∧
+      (∀ a, a < f.mesh.region.dims.length →
+        colOf fr (f.mesh.region.dims.getD a "") = some (.num (o.points.map fun p => p.getD a 0))) ∧
+      (∀ c, c < f.nvdim → c < (valueColumns f.vdims f.nvdim).length →
+        colOf fr ((valueColumns f.vdims f.nvdim).getD c "") = some (.val (o.values.map fun v => v.getD c default))) := by
+  unfold VF.lineData at h
+  split at h
+  · cases h
+  · rename_i o ho
+    injection h with h; subst h
+    have hnames := colNames_frameAssigns f.mesh.region.dims (valueColumns f.vdims f.nvdim) f.nvdim o
+    have hfr : lineFrame f.mesh.region.dims (valueColumns f.vdims f.nvdim) f.nvdim o
+        = frameAssigns f.mesh.region.dims (valueColumns f.vdims f.nvdim) f.nvdim o := by
+      unfold lineFrame
+      rw [applyAssigns_fresh [] _ (by
+        show (colNames (frameAssigns f.mesh.region.dims (valueColumns f.vdims f.nvdim) f.nvdim o)).Nodup
+        rw [hnames]; exact hnd)]
+      simp
+    have hnd' : (colNames (frameAssigns f.mesh.region.dims (valueColumns f.vdims f.nvdim) f.nvdim o)).Nodup := by
+      rw [hnames]; exact hnd
+    refine ⟨o, ho, by rw [hfr, hnames], ?_, fun a ha => ?_, fun c hc hc' => ?_⟩
+    · rw [hfr]
+      exact colOf_of_nodup _ hnd' ("r", Col.dist2 o.r2) (by rw [frameAssigns_eq]; simp)
+    · rw [hfr]
+      exact colOf_of_nodup _ hnd' (_, _) (by
+        rw [frameAssigns_eq]
+        exact List.mem_cons_of_mem _ (List.mem_append_left _ (mem_dimAssigns _ o a ha)))
+    · rw [hfr]
+      exact colOf_of_nodup _ hnd' (_, _) (by
+        rw [frameAssigns_eq]
+        exact List.mem_cons_of_mem _ (List.mem_append_right _ (mem_valAssigns _ _ o c hc hc')))
+
+/-- Two points of the region and `n ≥ 2` give a data frame (on every mesh, with any names). -/
+theorem lineData_accepts (f : VF V) (p1 p2 : List Rat) (n : Nat) (hn : 2 ≤ n)
+    (h1 : f.mesh.region.containsExact p1) (h2 : f.mesh.region.containsExact p2) :
+    ∃ fr, f.lineData p1 p2 n = .ok fr := by
+  obtain ⟨o, ho⟩ := line_accepts f p1 p2 n hn h1 h2
+  exact ⟨_, lineData_of_line f p1 p2 n o ho⟩
+
+/-- A field whose labels passed the `vdims` setter (`nvdim` different labels) on a mesh whose
+dimension names are different from `r` and from every `v<label>`: the hypothesis of
+`lineData_columns` holds and all `nvdim` value columns are there. -/
+theorem lineData_noclash_of_labels (dims vs : List String) (nv : Nat) (hl : vs.length = nv)
+    (hd : dims.Nodup) (hv : vs.Nodup) (hr : "r" ∉ dims) (hrv : ∀ l ∈ vs, "v" ++ l ≠ "r")
+    (hdv : ∀ l ∈ vs, "v" ++ l ∉ dims) :
+    ("r" :: (dims ++ (valueColumns (some vs) nv).take nv)).Nodup := by
+  have htake : (valueColumns (some vs) nv).take nv = vs.map fun d => "v" ++ d := by
+    simp only [valueColumns]
+    rw [List.take_of_length_le (by simp [hl])]
+  rw [htake]
+  have hinj : (vs.map fun d => "v" ++ d).Nodup := by
+    rw [List.Nodup, List.pairwise_map]
+    exact List.Pairwise.imp (fun h e => h (prefix_cancel _ _ e)) hv
+  rw [List.nodup_cons, List.nodup_append]
+  refine ⟨?_, hd, hinj, ?_⟩
+  · rw [List.mem_append]
+    rintro (h | h)
+    · exact hr h
+    · obtain ⟨l, hl', e⟩ := List.mem_map.mp h
+      exact hrv l hl' e
+  · intro a ha b hb e
+    obtain ⟨l, hl', e'⟩ := List.mem_map.mp hb
+    exact hdv l hl' (by rw [e', ← e]; exact ha)
+
+/-- NEGATIVE statement (open finding D42), value columns.  If a mesh dimension carries the name of
+the `c`-th value column (`v<label>`, or `v` for an unlabelled scalar field), then in the data
+frame of `Field.line` the column of that name holds the `c`-th COMPONENT of the sampled values:
+the coordinate column has been overwritten, the points of the line are not in the frame. -/
+theorem lineData_clash_value_column (f : VF V) (p1 p2 : List Rat) (n : Nat) (fr : List (String × Col V))
+    (h : f.lineData p1 p2 n = .ok fr) (a c : Nat) (ha : a < f.mesh.region.dims.length)
+    (hc : c < f.nvdim) (hc' : c < (valueColumns f.vdims f.nvdim).length)
+    (hvn : ((valueColumns f.vdims f.nvdim).take f.nvdim).Nodup)
+    (hclash : f.mesh.region.dims.getD a "" = (valueColumns f.vdims f.nvdim).getD c "") :
+    ∃ o, f.line p1 p2 n = .ok o ∧
+      colOf fr (f.mesh.region.dims.getD a "") = some (.val (o.values.map fun v => v.getD c default)) ∧
+      fr.length ≤ f.mesh.region.dims.length + min f.nvdim (valueColumns f.vdims f.nvdim).length := by
+  unfold VF.lineData at h
+  split at h
+  · cases h
+  · rename_i o ho
+    injection h with h; subst h
+    refine ⟨o, ho, ?_, ?_⟩
+    · unfold lineFrame
+      rw [colOf_applyAssigns, frameAssigns_eq, List.reverse_cons, List.reverse_append, List.append_assoc,
+        List.find?_append, hclash]
+      have := find_rev_of_nodup (valAssigns (valueColumns f.vdims f.nvdim) f.nvdim o)
+        (by rw [colNames_valAssigns]; exact hvn) _ (mem_valAssigns _ _ o c hc hc')
+      simp only at this
+      rw [this]; rfl
+    · -- one name is assigned twice: at most 1 + ndim + nvalues - 1 columns
+      obtain ⟨s, t, hst⟩ := List.append_of_mem (mem_valAssigns (valueColumns f.vdims f.nvdim) f.nvdim o c hc hc')
+      have hlen : (frameAssigns f.mesh.region.dims (valueColumns f.vdims f.nvdim) f.nvdim o).length
+          = 1 + f.mesh.region.dims.length + min f.nvdim (valueColumns f.vdims f.nvdim).length := by
+        rw [frameAssigns_eq]; simp [dimAssigns, valAssigns]; omega
+      have hsplit : frameAssigns f.mesh.region.dims (valueColumns f.vdims f.nvdim) f.nvdim o
+          = (("r", Col.dist2 o.r2) :: (dimAssigns f.mesh.region.dims o ++ s)) ++
+            ((valueColumns f.vdims f.nvdim).getD c "", Col.val (o.values.map fun v => v.getD c default)) :: t := by
+        rw [frameAssigns_eq, hst]; simp
+      have := length_applyAssigns_dup [] (("r", Col.dist2 o.r2) :: (dimAssigns f.mesh.region.dims o ++ s)) t
+        ((valueColumns f.vdims f.nvdim).getD c "", Col.val (o.values.map fun v => v.getD c default)) (Or.inr (by
+          simp only [colNames, List.map_cons, List.map_append]
+          apply List.mem_cons_of_mem
+          apply List.mem_append_left
+          have hd := colNames_dimAssigns f.mesh.region.dims o
+          simp only [colNames] at hd
+          rw [hd, ← hclash]
+          simp [List.getD_eq_getElem?_getD, ha]))
+      unfold lineFrame
+      rw [hsplit]
+      rw [← hsplit, hlen] at this
+      simp only [List.length_nil] at this
+      rw [hsplit] at this
+      omega
+
+/-- NEGATIVE statement (open finding D42), distance column.  If a mesh dimension is called `r` (and
+no value column is), the column `r` of the data frame holds that COORDINATE of the points: the
+distances from `p1` are not in the frame. -/
+theorem lineData_clash_r (f : VF V) (p1 p2 : List Rat) (n : Nat) (fr : List (String × Col V))
+    (h : f.lineData p1 p2 n = .ok fr) (a : Nat) (ha : a < f.mesh.region.dims.length)
+    (hdn : f.mesh.region.dims.Nodup) (hr : f.mesh.region.dims.getD a "" = "r")
+    (hv : "r" ∉ (valueColumns f.vdims f.nvdim).take f.nvdim) :
+    ∃ o, f.line p1 p2 n = .ok o ∧ colOf fr "r" = some (.num (o.points.map fun p => p.getD a 0)) := by
+  unfold VF.lineData at h
+  split at h
+  · cases h
+  · rename_i o ho
+    injection h with h; subst h
+    refine ⟨o, ho, ?_⟩
+    unfold lineFrame
+    rw [colOf_applyAssigns, frameAssigns_eq, List.reverse_cons, List.reverse_append, List.append_assoc,
+      List.find?_append, List.find?_append]
+    have h1 : (valAssigns (valueColumns f.vdims f.nvdim) f.nvdim o).reverse.find? (fun p => p.1 == "r") = none := by
+      apply find_none_of_not_mem
+      simp only [colNames, List.map_reverse, List.mem_reverse]
+      have := colNames_valAssigns (valueColumns f.vdims f.nvdim) f.nvdim o
+      simp only [colNames] at this
+      rw [this]; exact hv
+    have h2 := find_rev_of_nodup (dimAssigns f.mesh.region.dims o)
+      (by rw [colNames_dimAssigns]; exact hdn) _ (mem_dimAssigns _ o a ha)
+    simp only [hr] at h2
+    rw [h1, h2]; rfl
+
+/-- Every component has its own value column: for labels that passed the `vdims` setter (`nvdim` of
+them), for an unlabelled scalar field (`v`) and for an unlabelled vector field (`v0 … v{nvdim-1}`)
+there are exactly `nvdim` value column names, so `zip(range(nvdim), value_columns)` drops nothing. -/
+theorem valueColumns_complete (vdims : Option (List String)) (nv : Nat)
+    (h : vdims = none ∨ ∃ vs, vdims = some vs ∧ vs.length = nv) :
+    (valueColumns vdims nv).length = nv ∧ (valueColumns vdims nv).take nv = valueColumns vdims nv ∧
+    (vdims = none → 1 < nv → ∀ c, c < nv → (valueColumns vdims nv).getD c "" = s!"v{c}") ∧
+    (vdims = none → nv = 1 → valueColumns vdims nv = ["v"]) ∧
+    (∀ vs, vdims = some vs → ∀ c, c < nv → (valueColumns vdims nv).getD c "" = "v" ++ vs.getD c "") := by
+  have hlen : (valueColumns vdims nv).length = nv := by
+    rcases h with rfl | ⟨vs, rfl, hl⟩
+    · unfold valueColumns
+      by_cases h1 : nv = 1
+      · simp [h1]
+      · simp [h1]
+    · simp [valueColumns, hl]
+  refine ⟨hlen, List.take_of_length_le (by omega), fun hv h1 c hc => ?_, fun hv h1 => ?_, fun vs hv c hc => ?_⟩
+  · subst hv
+    have : ¬ nv = 1 := by omega
+    simp [valueColumns, this, List.getD_eq_getElem?_getD, hc]
+  · subst hv; simp [valueColumns, h1]
+  · subst hv
+    rcases h with h | ⟨vs', h', hl⟩
+    · cases h
+    · injection h' with h'; subst h'
+      simp [valueColumns, List.getD_eq_getElem?_getD, hl, hc]
+
+/-- POSITIVE statement that replaces the former finding D45 (a vector field without labels —
+`vdims=[]` removes them — used to keep only its first component in the data frame): the frame of
+an unlabelled vector field has the columns `r, *dims, v0, …, v{nvdim-1}`, and column `v{c}` holds
+component `c` of every sampled value, for EVERY `c < nvdim`. -/
+theorem lineData_unlabelled_vector (f : VF V) (p1 p2 : List Rat) (n : Nat) (fr : List (String × Col V))
+    (hv : f.vdims = none) (hnv : 1 < f.nvdim) (h : f.lineData p1 p2 n = .ok fr)
+    (hnd : ("r" :: (f.mesh.region.dims ++ (List.range f.nvdim).map fun i => s!"v{i}")).Nodup) :
+    ∃ o, f.line p1 p2 n = .ok o ∧
+      colNames fr = "r" :: (f.mesh.region.dims ++ (List.range f.nvdim).map fun i => s!"v{i}") ∧
+      ∀ c, c < f.nvdim → colOf fr s!"v{c}" = some (.val (o.values.map fun v => v.getD c default)) := by
+  obtain ⟨hlen, htake, hget, _, _⟩ := valueColumns_complete f.vdims f.nvdim (Or.inl hv)
+  have hvc : valueColumns f.vdims f.nvdim = (List.range f.nvdim).map fun i => s!"v{i}" := by
+    have : ¬ f.nvdim = 1 := by omega
+    simp [hv, valueColumns, this]
+  obtain ⟨o, ho, hnames, _, _, hvals⟩ := lineData_columns f p1 p2 n fr h (by rw [htake, hvc]; exact hnd)
+  refine ⟨o, ho, by rw [hnames, htake, hvc], fun c hc => ?_⟩
+  have := hvals c hc (by omega)
+  rw [hget hv hnv c hc] at this
+  exact this
+
+omit [Inhabited V] in
+/-- The values along a line between two points of the region are stored values: value `j` is the
+row of a cell that contains point `j` of the line (composition of `line_values` and
+`call_cell_contains`; every point of the segment lies in the region). -/
+theorem line_values_cell (f : VF V) (hm : f.mesh.Inv) (p1 p2 : List Rat) (n : Nat) (o : LineOut V)
+    (h : f.line p1 p2 n = .ok o)
+    (h1 : f.mesh.region.containsExact p1) (h2 : f.mesh.region.containsExact p2) (j : Nat) (hj : j < n) :
+    ∃ i, inRange f.mesh.n i = true ∧ o.values.getD j [] = row f.data f.nvdim i ∧
+      ∀ a, a < f.mesh.ndim →
+        f.mesh.region.lo a + (i.getD a 0 : Rat) * f.mesh.cellAt a ≤ (o.points.getD j []).getD a 0 ∧
+        ((o.points.getD j []).getD a 0 < f.mesh.region.lo a + ((i.getD a 0 : Rat) + 1) * f.mesh.cellAt a ∨
+          (i.getD a 0 = f.mesh.nAt a - 1 ∧ (o.points.getD j []).getD a 0 = f.mesh.region.hi a)) := by
+  obtain ⟨hml, _, _⟩ := line_ok f p1 p2 n o h
+  obtain ⟨_, _, hn, hpts⟩ := meshLine_ok _ _ _ _ _ hml
+  have hin : f.mesh.region.containsExact (o.points.getD j []) := by
+    rw [hpts, getD_tab _ _ _ _ hj]
+    refine ⟨by simp; rfl, fun a ha => ?_⟩
+    have ha' : a < f.mesh.ndim := ha
+    rw [getD_tab _ _ _ _ ha']
+    exact segment_in _ _ _ _ j n hn hj (h1.2 a ha) (h2.2 a ha)
+  obtain ⟨i, hcall, hir, hbox⟩ := call_cell_contains f hm _ hin
+  have hv := line_values f p1 p2 n o h j hj
+  rw [hcall] at hv
+  injection hv with hv
+  exact ⟨i, hir, hv.symm, hbox⟩
+
+omit [Inhabited V] in
+/-- Fewer than two points are rejected. -/
+theorem line_short_rejected (f : VF V) (p1 p2 : List Rat) (n : Nat) (hn : n < 2) :
+    ∃ e, f.line p1 p2 n = .error e := by
+  unfold VF.line meshLine
+  split
+  · exact ⟨_, rfl⟩
+  · rename_i pts hp
+    split at hp
+    · cases hp
+    · cases hp
+
+/-- THE PROPERTY'S WORDING for dictionaries, literally: the value stored for cell `i` is supplied by
+the FIRST LISTED subregion (order of `mesh.subregions`) that is a key of the dictionary and whose
+region CONTAINS THE CENTRE of cell `i` — that key's specification converted on the subregion's own
+mesh and read at the cell — and otherwise by the default. -/
+theorem asArray_dict_first_containing (isZero : V → Bool) (items : List (String × Leaf V)) (dflt : Option (Dflt V))
+    (m : Mesh) (hm : m.Inv) (nv : Nat) (a : NDA V) (k1 k2 : String × Region → Nat → Nat)
+    (hal : ∀ p ∈ m.subs, AlignedSub m p.2 (k1 p) (k2 p))
+    (h : asArray isZero (.dict items dflt) m nv = .ok a)
+    (i : List Nat) (hi : inRange m.n i = true) (c : Nat) (hc : c < nv) :
+    a.get (i ++ [c]) =
+      match m.subs.find? (listedContains items m i) with
+      | some p => cellOf isZero items m nv k1 k2 i c p
+      | none => dfltVal dflt m nv i c := by
+  rw [asArray_dict_first_listed isZero items dflt m hm nv a k1 k2 hal h i hi c hc]
+  have hcongr : ∀ l : List (String × Region), (∀ p ∈ l, p ∈ m.subs) →
+      l.find? (hits items m k1 k2 i) = l.find? (listedContains items m i) := by
+    intro l hl
+    induction l with
+    | nil => rfl
+    | cons p rest ih =>
+      have hp : hits items m k1 k2 i p = listedContains items m i p := by
+        have hiff := inBox_iff_centre m hm p.2 (k1 p) (k2 p) (hal p (hl p (by simp))) i hi []
+        simp only [List.append_nil] at hiff
+        unfold hits listedContains
+        congr 1
+        rw [Bool.eq_iff_iff, hiff, allLt_iff]
+        simp only [Bool.and_eq_true, decide_eq_true_eq]
+      simp only [List.find?_cons, hp]
+      rw [ih fun q hq => hl q (by simp [hq])]
+  rw [hcongr m.subs fun _ h => h]
+
+/-! ## dictionaries: the remaining leaf kinds, acceptance with callable / without default, rejections -/
+
+/-- … a vector of `nvdim` numbers gives that vector, … -/
+theorem dict_cell_vector (isZero : V → Bool) (items : List (String × Leaf V)) (m : Mesh) (nv : Nat)
+    (k1 k2 : String × Region → Nat → Nat) (i : List Nat) (c : Nat) (hc : c < nv)
+    (p : String × Region) (arr : NDA V)
+    (hl : lookupLeaf items p.1 = some (.arr arr)) (hs : arr.shape = [nv])
+    (hamb : ¬ (nv = 1 ∧ (subMeshOf m p.2 (k1 p) (k2 p)).n = [1])) :
+    cellOf isZero items m nv k1 k2 i c p = arr.get [c] := by
+  obtain ⟨b, hb1, _, hg⟩ := asArray_vector isZero arr (subMeshOf m p.2 (k1 p) (k2 p)) nv hs hamb
+  simp only [asArray] at hb1
+  simp only [cellOf, hl, leafVal, hb1]
+  exact hg _ c (by simp [subIdx, subMeshOf]) hc
+
+/-- … and a source field gives its sample at the centre of the MESH cell, i.e. (with
+`call_cell_contains`) the value of a source cell containing that centre. -/
+theorem dict_cell_field (isZero : V → Bool) (items : List (String × Leaf V)) (m : Mesh) (hm : m.Inv) (nv : Nat)
+    (k1 k2 : String × Region → Nat → Nat) (i : List Nat) (hi : inRange m.n i = true) (c : Nat) (hc : c < nv)
+    (p : String × Region) (src : VF V)
+    (hal : AlignedSub m p.2 (k1 p) (k2 p)) (hit : hits items m k1 k2 i p = true)
+    (hl : lookupLeaf items p.1 = some (.field src))
+    (hsm : (subMeshOf m p.2 (k1 p) (k2 p)).Inv) (hs : src.mesh.Inv) (hnd : src.mesh.ndim = m.ndim)
+    (hdims : p.2.dims = src.mesh.region.dims) (hnv : src.nvdim = nv)
+    (hin : ∀ a, a < m.ndim → src.mesh.region.lo a ≤ p.2.lo a ∧ p.2.hi a ≤ src.mesh.region.hi a) :
+    ∃ vs, src.call (m.centre i) = .ok vs ∧ cellOf isZero items m nv k1 k2 i c p = vs.getD c default := by
+  have hil : i.length = m.ndim := (inRange_length _ _ hi).trans hm.2.1
+  have hb : inBox (tab m.ndim (k1 p)) (tab m.ndim (k2 p)) (i ++ []) = true := by
+    simp only [hits, Bool.and_eq_true] at hit; simpa using hit.2
+  have hsnd : (subMeshOf m p.2 (k1 p) (k2 p)).ndim = m.ndim := hal.ndim
+  obtain ⟨b, hb1, _, hg⟩ := asArray_field_samples_source isZero src (subMeshOf m p.2 (k1 p) (k2 p)) nv hsm hs
+    (by rw [hnd, hsnd]) hdims hnv (by rw [hsnd]; exact hin)
+  simp only [asArray] at hb1
+  have hr := subIdx_inRange m (k1 p) (k2 p) i hil [] hb
+  have hcall := hg _ hr
+  rw [subMesh_centre m hm p.2 (k1 p) (k2 p) hal i hil [] hb] at hcall
+  refine ⟨_, hcall, ?_⟩
+  simp only [cellOf, hl, leafVal, hb1, row]
+  rw [getD_tab _ _ _ _ hc]
+
+/-- A listed subregion whose value cannot be converted on its submesh (wrong shape, component
+count or type) makes the whole dictionary rejected — also when the subregion is completely hidden
+behind earlier ones. -/
+theorem asArray_dict_leaf_rejected (isZero : V → Bool) (items : List (String × Leaf V)) (dflt : Option (Dflt V))
+    (m : Mesh) (hm : m.Inv) (nv : Nat) (k1 k2 : Nat → Nat) (p : String × Region) (hp : p ∈ m.subs)
+    (hal : AlignedSub m p.2 k1 k2) (lf : Leaf V) (hl : lookupLeaf items p.1 = some lf) (e : Err)
+    (herr : asLeaf isZero lf (subMeshOf m p.2 k1 k2) nv = .error e) :
+    ∃ e', asArray isZero (.dict items dflt) m nv = .error e' := by
+  simp only [asArray]
+  split
+  · exact ⟨_, rfl⟩
+  · rename_i a0 _
+    obtain ⟨e', he'⟩ := dictLoop_err_of isZero items m nv m.subs.reverse a0 p (by simpa using hp) lf hl
+      (subMeshOf m p.2 k1 k2) (mkCell_aligned m hm p.2 k1 k2 hal) e
+      ⟨_, region2slices_spec m hm p.2 k1 k2 hal⟩ herr
+    rw [he']
+    exact ⟨_, rfl⟩
+
+/-- A `default` of the wrong type, or one NumPy cannot broadcast to `(*n, nvdim)` (e.g. a vector of
+another length), is rejected. -/
+theorem asArray_dict_bad_default_rejected (isZero : V → Bool) (items : List (String × Leaf V)) (m : Mesh) (nv : Nat) :
+    asArray isZero (.dict items (some .bad)) m nv = .error .value ∧
+    ∀ d : NDA V, bcastOk (m.n ++ [nv]) d.shape = false →
+      asArray isZero (.dict items (some (.val d))) m nv = .error .value := by
+  refine ⟨rfl, fun d hd => ?_⟩
+  simp [asArray, fillOf, bcast, hd]
+
+/-- Well-formed dictionaries with a CALLABLE default (a function, or a field — fields are called
+like functions) are accepted: subregions that are unions of cells, every listed value convertible
+on its submesh, the default returning `nvdim` values at every cell centre. -/
+theorem asArray_dict_accepts_callable (isZero : V → Bool) (items : List (String × Leaf V)) (d : Dflt V)
+    (m : Mesh) (hm : m.Inv) (nv : Nat) (k1 k2 : String × Region → Nat → Nat)
+    (hal : ∀ p ∈ m.subs, AlignedSub m p.2 (k1 p) (k2 p))
+    (hok : ∀ p ∈ m.subs, ∀ lf, lookupLeaf items p.1 = some lf →
+      ∃ sub, asLeaf isZero lf (subMeshOf m p.2 (k1 p) (k2 p)) nv = .ok sub ∧
+        sub.shape = (subMeshOf m p.2 (k1 p) (k2 p)).n ++ [nv])
+    (hd : (∃ fn, d = .func fn ∧ ∀ i, inRange m.n i = true → (fn (m.centre i)).length = nv) ∨
+          (∃ src : VF V, d = .field src ∧ src.nvdim = nv ∧
+            ∀ i, inRange m.n i = true → ∃ j, src.mesh.point2index (m.centre i) = .ok j)) :
+    ∃ a, asArray isZero (.dict items (some d)) m nv = .ok a ∧ a.shape = m.n ++ [nv] := by
+  have hlen : m.n.length = m.ndim := hm.2.1
+  have hfill : fillOf (some d) m nv = .ok (NDA.const (m.n ++ [nv]) none) := by
+    rcases hd with ⟨fn, rfl, _⟩ | ⟨src, rfl, _⟩ <;> rfl
+  obtain ⟨a1, ha1, _⟩ := dictLoop_ok isZero items m hm nv k1 k2 m.subs.reverse
+    (fun p hp => hal p (by simpa using hp)) (fun p hp => hok p (by simpa using hp))
+    (NDA.const (m.n ++ [nv]) none)
+  have hcell : ∀ i ∈ nanCells m a1, ∃ vs, dfltCell d m i = .ok vs ∧ vs.length = nv := by
+    intro i hi
+    have hir := mem_nanCells_inRange m a1 i hi (inv_all_pos m hm)
+    unfold dfltCell
+    rw [index2point_nat m hlen i hir]
+    rcases hd with ⟨fn, rfl, hfn⟩ | ⟨src, rfl, hsn, hsp⟩
+    · exact ⟨_, rfl, hfn i hir⟩
+    · obtain ⟨j, hj⟩ := hsp i hir
+      exact ⟨_, ((call_eq src _).1 j hj).1, by rw [((call_eq src _).1 j hj).2.1, hsn]⟩
+  obtain ⟨a2, ha2⟩ := dfltLoop_ok d m nv (nanCells m a1) a1 hcell
+  have hex : ∃ a, asArray isZero (.dict items (some d)) m nv = .ok a := by
+    simp only [asArray, hfill, ha1]
+    split
+    · simp only [ha2]; exact ⟨_, rfl⟩
+    · exact ⟨_, rfl⟩
+  obtain ⟨a, ha⟩ := hex
+  exact ⟨a, ha, asArray_shape isZero _ m nv a ha⟩
+
+/-- A dictionary WITHOUT default whose listed subregions cover every cell is accepted. -/
+theorem asArray_dict_accepts_covered (isZero : V → Bool) (items : List (String × Leaf V))
+    (m : Mesh) (hm : m.Inv) (nv : Nat) (k1 k2 : String × Region → Nat → Nat)
+    (hal : ∀ p ∈ m.subs, AlignedSub m p.2 (k1 p) (k2 p))
+    (hok : ∀ p ∈ m.subs, ∀ lf, lookupLeaf items p.1 = some lf →
+      ∃ sub, asLeaf isZero lf (subMeshOf m p.2 (k1 p) (k2 p)) nv = .ok sub ∧
+        sub.shape = (subMeshOf m p.2 (k1 p) (k2 p)).n ++ [nv])
+    (hcov : ∀ i, inRange m.n i = true → ∃ p ∈ m.subs, hits items m k1 k2 i p = true) :
+    ∃ a, asArray isZero (.dict items none) m nv = .ok a ∧ a.shape = m.n ++ [nv] := by
+  have hlen : m.n.length = m.ndim := hm.2.1
+  obtain ⟨a1, ha1, _⟩ := dictLoop_ok isZero items m hm nv k1 k2 m.subs.reverse
+    (fun p hp => hal p (by simpa using hp)) (fun p hp => hok p (by simpa using hp))
+    (NDA.const (m.n ++ [nv]) none)
+  obtain ⟨hs1, hg1⟩ := dictLoop_get isZero items m nv _ _ a1 ha1
+  simp only [List.reverse_reverse] at hg1
+  have hany : anyNone a1 = false := by
+    unfold anyNone
+    rw [List.any_eq_false]
+    intro j hj
+    -- j is an in-range index of shape n ++ [nv]
+    rw [hs1] at hj
+    simp only [NDA.const, indicesC, List.mem_map, List.mem_range] at hj
+    obtain ⟨k, hk, rfl⟩ := hj
+    have hnv : 0 < nv := by
+      by_contra h0
+      have : nv = 0 := by omega
+      subst this
+      simp [natProd_append, natProd] at hk
+    have hpos : ∀ n ∈ m.n ++ [nv], 0 < n := by
+      intro n hn
+      rcases List.mem_append.mp hn with h | h
+      · exact inv_all_pos m hm n h
+      · simp at h; omega
+    have hr := unflatC_inRange (m.n ++ [nv]) k hpos hk
+    -- split the index into cell and component
+    obtain ⟨i, c, hic⟩ : ∃ i c, unflatC (m.n ++ [nv]) k = i ++ [c] := by
+      have hl := inRange_length _ _ hr
+      have hne : unflatC (m.n ++ [nv]) k ≠ [] := by
+        intro e; rw [e] at hl; simp at hl
+      exact ⟨_, _, (List.dropLast_append_getLast hne).symm⟩
+    rw [hic] at hr ⊢
+    rw [inRange_snoc] at hr
+    simp only [Bool.and_eq_true, decide_eq_true_eq] at hr
+    obtain ⟨hir, hc⟩ := hr
+    have hil : i.length = m.ndim := (inRange_length _ _ hir).trans hlen
+    rw [hg1, findSome_patch isZero items m hm nv k1 k2 i hil c hc m.subs hal hok]
+    obtain ⟨p, hp, hhit⟩ := hcov i hir
+    have : (m.subs.find? (hits items m k1 k2 i)).isSome = true := by
+      rw [List.find?_isSome]; exact ⟨p, hp, hhit⟩
+    cases hf : m.subs.find? (hits items m k1 k2 i) with
+    | none => rw [hf] at this; simp at this
+    | some q => simp
+  refine ⟨unwrap a1, by simp [asArray, fillOf, ha1, hany], ?_⟩
+  simp only [unwrap, NDA.map]
+  exact hs1
+
+/-- A callable default that returns another number of components at the centre of a cell no listed
+subregion covers is rejected (wrong component count). -/
+theorem asArray_dict_default_count_rejected (isZero : V → Bool) (items : List (String × Leaf V))
+    (fn : List Rat → List V) (m : Mesh) (nv : Nat) (hlen : m.n.length = m.ndim) (hnv : 0 < nv)
+    (i : List Nat) (hi : inRange m.n i = true)
+    (hun : (m.subs.findSome? fun p => patchVal isZero items m nv p (i ++ [0])) = none)
+    (hbad : (fn (m.centre i)).length ≠ nv) :
+    ∃ e, asArray isZero (.dict items (some (.func fn))) m nv = .error e := by
+  have hj : inRange (m.n ++ [nv]) (i ++ [0]) = true := by rw [inRange_snoc, hi]; simp [hnv]
+  simp only [asArray, fillOf]
+  split
+  · exact ⟨_, rfl⟩
+  · rename_i a1 hloop
+    obtain ⟨hs1, hg1⟩ := dictLoop_get isZero items m nv _ _ a1 hloop
+    simp only [List.reverse_reverse] at hg1
+    have n0 : a1.get (i ++ [0]) = none := by rw [hg1, hun]; rfl
+    have hany : anyNone a1 = true := anyNone_true a1 (i ++ [0]) (by rw [hs1]; exact hj) n0
+    rw [hany]
+    simp only [if_true]
+    have hin : i ∈ nanCells m a1 := by
+      rw [mem_nanCells]; exact ⟨mem_indicesC _ _ hi, by simp [n0]⟩
+    obtain ⟨e, he⟩ := dfltLoop_err (.func fn) m nv (nanCells m a1) a1 i hin (by
+      intro vs hvs
+      unfold dfltCell at hvs
+      rw [index2point_nat m hlen i hi] at hvs
+      simp only at hvs
+      injection hvs with hvs; subst hvs; exact hbad)
+    rw [he]
+    exact ⟨_, rfl⟩
+
+/-! ## histories: any sequence of accepted and rejected assignments -/
+
+/-- INVARIANT over histories.  After ANY sequence of assignments through the `array` setter and
+`update_field_values` — each one accepted or rejected — the field still lives on its mesh with
+its `nvdim` and labels, and its array still has shape `(*n, nvdim)`. -/
+theorem history_invariant (isZero : V → Bool) (f : VF V) (ops : List (Assign V))
+    (hs : f.data.shape = f.mesh.n ++ [f.nvdim]) :
+    (f.run isZero ops).mesh = f.mesh ∧ (f.run isZero ops).nvdim = f.nvdim ∧
+    (f.run isZero ops).vdims = f.vdims ∧
+    (f.run isZero ops).data.shape = f.mesh.n ++ [f.nvdim] := by
+  have h := run_withData isZero f none ops
+  simp only [withData] at h
+  rw [h]
+  cases hl : lastResult isZero f.mesh f.nvdim none ops with
+  | none => exact ⟨rfl, rfl, rfl, hs⟩
+  | some a =>
+    exact ⟨rfl, rfl, rfl, lastResult_shape isZero f.mesh f.nvdim none ops (fun _ h => by cases h) a hl⟩
+
+/-- The state after a history is determined by its LAST ACCEPTED assignment: whatever was assigned
+(or rejected) before, and however many assignments were rejected afterwards, the field holds
+exactly the array that assignment produces; if every assignment was rejected the field is
+unchanged. -/
+theorem history_last_accepted (isZero : V → Bool) (f : VF V) :
+    (∀ ops : List (Assign V), (∀ q ∈ ops, ∃ e, Assign.result isZero f.mesh f.nvdim q = .error e) →
+      f.run isZero ops = f) ∧
+    (∀ (pre post : List (Assign V)) (op : Assign V) (a : NDA V),
+      Assign.result isZero f.mesh f.nvdim op = .ok a →
+      (∀ q ∈ post, ∃ e, Assign.result isZero f.mesh f.nvdim q = .error e) →
+      f.run isZero (pre ++ op :: post) = { f with data := a }) := by
+  constructor
+  · intro ops hrej
+    have h := run_withData isZero f none ops
+    simp only [withData] at h
+    rw [h]
+    have : lastResult isZero f.mesh f.nvdim none ops = none := by
+      clear h
+      induction ops with
+      | nil => rfl
+      | cons q rest ih =>
+        obtain ⟨e, he⟩ := hrej q (by simp)
+        simp only [lastResult, List.foldl_cons, he] at ih ⊢
+        exact ih fun q' hq' => hrej q' (by simp [hq'])
+    rw [this]
+  · intro pre post op a hop hpost
+    have h := run_withData isZero f none (pre ++ op :: post)
+    simp only [withData] at h
+    rw [h, lastResult_append_ok isZero f.mesh f.nvdim none pre post op a hop hpost]
+
+/-- … and that array is the specification's: after a history whose last accepted step is
+`update_field_values(s)`, sampling at the centre of any cell returns the row the conversion of
+`s` assigns to that cell. -/
+theorem history_then_call (isZero : V → Bool) (f : VF V) (hm : f.mesh.Inv) (pre post : List (Assign V))
+    (s : Spec V) (a : NDA V) (ha : asArray isZero s f.mesh f.nvdim = .ok a)
+    (hpost : ∀ q ∈ post, ∃ e, Assign.result isZero f.mesh f.nvdim q = .error e)
+    (i : List Nat) (hi : inRange f.mesh.n i = true) :
+    (f.run isZero (pre ++ .upd s :: post)).call (f.mesh.centre i) = .ok (row a f.nvdim i) := by
+  obtain ⟨b, hb, _, hbg⟩ := updateValues_of_ok isZero s f.mesh f.nvdim a ha
+  rw [(history_last_accepted isZero f).2 pre post (.upd s) b hb hpost]
+  have := call_centre ({ f with data := b } : VF V) hm i hi
+  rw [this]
+  congr 1
+  apply tab_congr
+  intro c hc
+  exact hbg _ (by rw [inRange_snoc, hi]; simp [hc])
+
 /-! ## non-vacuity: a 2-d mesh, 4 × 2 cells of size 1, two overlapping subregions -/
 
 section Ex
@@ -703,6 +1497,135 @@ example : ∀ i, inRange m0.n i = true → ((fun p : List Rat => [p.getD 0 0, p.
 /-- hypothesis of `comp_eq`: label `"y"` of a field with labels `x, y` -/
 example (data : NDA Rat) : ∃ g, (VF.mk m0 2 data (some ["x", "y"])).comp (fun v => v == 0) "y" = .ok g :=
   comp_accepts _ _ "y" ["x", "y"] 1 rfl (by decide)
+
+/-- `lineData_columns` / `lineData_noclash_of_labels`: labels `x, y` on the mesh with dimensions `x, y` -/
+example : ("r" :: ((m0.region.dims) ++ (valueColumns (some ["x", "y"]) 2).take 2)).Nodup :=
+  lineData_noclash_of_labels ["x", "y"] ["x", "y"] 2 rfl (by decide) (by decide) (by decide) (by decide) (by decide)
+
+/-- … and the frame exists -/
+example (data : NDA Rat) : ∃ fr, (VF.mk m0 2 data (some ["x", "y"])).lineData [0, 0] [4, 2] 3 = .ok fr := by
+  obtain ⟨o, ho⟩ := line_accepts (VF.mk m0 2 data (some ["x", "y"])) [0, 0] [4, 2] 3 (by omega)
+    (mD_corner0 "x" "y") (mD_corner1 "x" "y")
+  exact ⟨_, lineData_of_line _ _ _ _ o ho⟩
+
+/-- WITNESS for finding D42 (`lineData_clash_value_column`): dimensions named `vx, y`, labels `x, y`:
+the frame exists, its column `vx` holds component 0 of the values, and it has at most 4 columns
+(not 5). -/
+example (data : NDA Rat) : ∃ o fr, (VF.mk (mD "vx" "y") 2 data (some ["x", "y"])).line [0, 0] [4, 2] 3 = .ok o ∧
+    (VF.mk (mD "vx" "y") 2 data (some ["x", "y"])).lineData [0, 0] [4, 2] 3 = .ok fr ∧
+    colOf fr "vx" = some (.val (o.values.map fun v => v.getD 0 default)) ∧ fr.length ≤ 4 := by
+  obtain ⟨o, ho⟩ := line_accepts (VF.mk (mD "vx" "y") 2 data (some ["x", "y"])) [0, 0] [4, 2] 3 (by omega)
+    (mD_corner0 _ _) (mD_corner1 _ _)
+  have hfr := lineData_of_line _ _ _ _ o ho
+  obtain ⟨o', ho', h1, h2⟩ := lineData_clash_value_column _ _ _ _ _ hfr 0 0 (show 0 < 2 by decide) (show 0 < 2 by decide)
+    (show 0 < 2 by decide) (show (["vx", "vy"] : List String).Nodup by decide) rfl
+  rw [ho] at ho'
+  injection ho' with ho'; subst ho'
+  exact ⟨o, _, ho, hfr, h1, h2⟩
+
+/-- WITNESS for finding D42 (`lineData_clash_r`): a dimension named `r` -/
+example (data : NDA Rat) : ∃ o fr, (VF.mk (mD "r" "y") 1 data none).line [0, 0] [4, 2] 3 = .ok o ∧
+    (VF.mk (mD "r" "y") 1 data none).lineData [0, 0] [4, 2] 3 = .ok fr ∧
+    colOf fr "r" = some (.num (o.points.map fun p => p.getD 0 0)) := by
+  obtain ⟨o, ho⟩ := line_accepts (VF.mk (mD "r" "y") 1 data none) [0, 0] [4, 2] 3 (by omega)
+    (mD_corner0 _ _) (mD_corner1 _ _)
+  have hfr := lineData_of_line _ _ _ _ o ho
+  obtain ⟨o', ho', h1⟩ := lineData_clash_r _ _ _ _ _ hfr 0 (show 0 < 2 by decide)
+    (show (["r", "y"] : List String).Nodup by decide) rfl (show "r" ∉ (["v"] : List String) by decide)
+  rw [ho] at ho'
+  injection ho' with ho'; subst ho'
+  exact ⟨o, _, ho, hfr, h1⟩
+
+/-- hypotheses of `lineData_unlabelled_vector` (the witness of the former finding D45): 3 components, no
+labels, dimensions `x, y`: the names `r, x, y, v0, v1, v2` are pairwise different and the frame exists -/
+example (data : NDA Rat) : ("r" :: (m0.region.dims ++ (List.range 3).map fun i => s!"v{i}")).Nodup ∧
+    ∃ fr, (VF.mk m0 3 data none).lineData [0, 0] [4, 2] 3 = .ok fr := by
+  refine ⟨by decide, ?_⟩
+  obtain ⟨o, ho⟩ := line_accepts (VF.mk m0 3 data none) [0, 0] [4, 2] 3 (by omega)
+    (mD_corner0 "x" "y") (mD_corner1 "x" "y")
+  exact ⟨_, lineData_of_line _ _ _ _ o ho⟩
+
+/-- hypotheses of `dict_cell_field`: the field leaf of `r1` is a source field on the mesh itself -/
+example : (subMeshOf m0 (reg [0, 0] [2, 2]) (k1 ("r1", reg [0, 0] [2, 2])) (k2 ("r1", reg [0, 0] [2, 2]))).Inv ∧
+    m0.Inv ∧ (reg [0, 0] [2, 2]).dims = m0.region.dims ∧
+    ∀ a, a < m0.ndim → m0.region.lo a ≤ (reg [0, 0] [2, 2]).lo a ∧ (reg [0, 0] [2, 2]).hi a ≤ m0.region.hi a :=
+  ⟨m0_sub_r1_inv, m0_inv, rfl, fun a ha => by rcases lt_two a ha with rfl | rfl <;> decide⟩
+
+/-- `asArray_dict_accepts_callable`: `{"r1": 1, "default": lambda p: p[0]}` on the mesh with overlapping subregions -/
+example : ∃ a, asArray (fun v : Rat => v == 0)
+    (.dict [("r1", .scalar 1)] (some (.func fun p => [p.getD 0 0]))) m0 1 = .ok a ∧ a.shape = [4, 2, 1] := by
+  apply asArray_dict_accepts_callable _ _ _ m0 m0_inv 1 k1 k2 m0_aligned
+  · intro p _ lf hl
+    have : lf = .scalar 1 := by
+      simp only [lookupLeaf, List.find?_cons, List.find?_nil] at hl
+      split at hl
+      · simpa using hl.symm
+      · cases hl
+    subst this
+    exact ⟨NDA.const (_ ++ [1]) 1, by simp [asLeaf], rfl⟩
+  · exact Or.inl ⟨_, rfl, fun _ _ => rfl⟩
+
+/-- `asArray_dict_accepts_covered`: `{"all": 7}` without default where `all` is the whole mesh -/
+example : ∃ a, asArray (fun v : Rat => v == 0) (.dict [("all", .scalar 7)] none) mAll 1 = .ok a ∧
+    a.shape = [4, 2, 1] := by
+  apply asArray_dict_accepts_covered _ _ mAll mAll_inv 1 kA1 kA2 mAll_aligned
+  · intro p _ lf hl
+    have : lf = .scalar 7 := by
+      simp only [lookupLeaf, List.find?_cons, List.find?_nil] at hl
+      split at hl
+      · simpa using hl.symm
+      · cases hl
+    subst this
+    exact ⟨NDA.const (_ ++ [1]) 7, by simp [asLeaf], rfl⟩
+  · intro i hi
+    refine ⟨("all", reg [0, 0] [4, 2]), by simp [mAll], ?_⟩
+    obtain ⟨hl, hb⟩ := (inRange_iff mAll.n i).mp hi
+    simp only [hits, lookupLeaf, List.find?_cons, beq_self_eq_true, Option.map_some, Option.isSome_some,
+      Bool.true_and]
+    unfold inBox
+    rw [allLt_iff]
+    intro a ha
+    simp only [tab_length] at ha
+    have ha2 : a < 2 := ha
+    have := hb a ha2
+    rw [getD_tab _ _ _ _ ha, getD_tab _ _ _ _ ha]
+    rcases lt_two a ha2 with rfl | rfl <;> simp [kA1, kA2] <;> simpa [mAll] using this
+
+/-- `asArray_dict_leaf_rejected`: `{"r1": "abc", "default": 0}` -/
+example : ∃ e, asArray (fun v : Rat => v == 0) (.dict [("r1", .bad)] (some (.val (NDA.const [] 0)))) m0 1 = .error e :=
+  asArray_dict_leaf_rejected _ _ _ m0 m0_inv 1 _ _ ("r1", reg [0, 0] [2, 2]) (by simp [m0])
+    (m0_aligned _ (by simp [m0])) .bad rfl .type rfl
+
+/-- `asArray_dict_default_count_rejected`: `{"default": lambda p: (1, 2)}` for a scalar field -/
+example : ∃ e, asArray (fun v : Rat => v == 0) (.dict [] (some (.func fun _ => [1, 2]))) m0 1 = .error e :=
+  asArray_dict_default_count_rejected _ _ _ m0 1 rfl (by decide) [3, 1] (by decide)
+    (by
+      rw [List.findSome?_eq_none_iff]
+      intro p _
+      exact patchVal_unlisted _ _ _ _ p _ rfl)
+    (by decide)
+
+/-- `comp_kth` / `new_labels`: the labels `mx, my, mz` have no duplicates and are accepted -/
+example : hasDup ["mx", "my", "mz"] = false ∧
+    vdimsSet ["mesh", "array"] 3 (some ["mx", "my", "mz"]) = .ok (some ["mx", "my", "mz"]) := by decide
+
+/-- `new_default_labels_comp`, `construct_func_call`: the constructor accepts `p ↦ (p_x, p_y)` without labels -/
+example : ∃ g, VF.new? (fun v : Rat => v == 0) [] m0 2 (.leaf (.func fun p => [p.getD 0 0, p.getD 1 0])) none = .ok g := by
+  obtain ⟨a, ha, _, _⟩ := asArray_func (fun v : Rat => v == 0) (fun p => [p.getD 0 0, p.getD 1 0]) m0 2 (fun _ _ => rfl)
+  obtain ⟨g, hg, _⟩ := (new_stores_spec (fun v : Rat => v == 0) [] m0 2 (.leaf (.func fun p => [p.getD 0 0, p.getD 1 0])) none).2.1
+    a _ (by omega) ha rfl
+  exact ⟨g, hg⟩
+
+/-- `setArray_array_stores`: an array of shape `(4, 2, 3)` for a 3-component field on the 4 × 2 mesh -/
+example : (NDA.const [4, 2, 3] (0 : Rat)).shape = m0.n ++ [3] := rfl
+
+/-- hypotheses of `history_last_accepted` / `history_then_call`: on every field `update_field_values(0)` is
+accepted and `field.array = "abc"` is rejected -/
+example (f : VF Rat) : (∃ a, Assign.result (fun v : Rat => v == 0) f.mesh f.nvdim (.upd (.leaf (.scalar 0))) = .ok a) ∧
+    ∃ e, Assign.result (fun v : Rat => v == 0) f.mesh f.nvdim (.set .bad) = .error e := by
+  obtain ⟨a, ha, _, _⟩ := asArray_const (fun v : Rat => v == 0) 0 f.mesh f.nvdim (Or.inr rfl)
+  obtain ⟨b, hb, _, _⟩ := updateValues_of_ok _ _ f.mesh f.nvdim a ha
+  exact ⟨⟨b, hb⟩, .type, rfl⟩
 
 end Ex
 
